@@ -1,25 +1,27 @@
 import PartituraModel.Wire
 import PartituraModel.Model.StepMap
+import PartituraModel.Model.StepMapPart
 
 open Wire Model Model.StepMap
 
 /-
 Requests (one line each; `SPAN` = `-` | `first last`; lists are count-prefixed):
-  ts   SPAN  n (t beats beat_type)*                      k x*
   ks   SPAN  n (t fifths mode)*                          k x*
-  clef SPAN  n (t staff sign line oc|-)*  m staff*       k x*
-  mm   SPAN  n (t beats beat_type)*  m (s e)*       d|-  k x*
-  mn   SPAN  n (t beats beat_type)*  m (s e num|-)* d|-  k x*
-  mp   SPAN  n (t beats beat_type)*  m (s e)*       d|-  k x*
+  clef SPAN  n (t staff sign line|- oc|-)*  m staff*       k x*
+The measure maps take the part description (round 2; the float `divs_per_beat` is no longer an input)
+(`PART` = npoints SPAN  nqd (t q)*  nts (t beats beat_type musical_beats)*  musical  nms (s e num|-)*):
+  tsE  PART k x*        time_signature_map with the stored musical beats
+  dpb  PART             (beats_per_bar, divs_per_beat) of the pickup rule, `nan` = NaN
+  mmP  PART k x*        measure_map
+  mnP  PART k x*        measure_number_map
+  mpP  PART k x*        metrical_position_map
+  sorted k t*           are the start times in non-decreasing order (what the table builders need of iter_all)
 Responses: a list with one entry per queried position, or `err` when the map raises.
 -/
 
 def pSpan : P Span := fun ts => match ts with
   | "-" :: rest => some (none, rest)
   | _ => (do let a ← int; let b ← int; pure (some (a, b))) ts
-
-def pTss : P (List (Int × Nat × Nat)) :=
-  list (do let t ← int; let b ← nat; let bt ← nat; pure (t, b, bt))
 
 def pMode : P Mode := do
   let t ← str
@@ -31,12 +33,23 @@ def pKss : P (List (Int × Int × Mode)) :=
   list (do let t ← int; let f ← int; let m ← pMode; pure (t, f, m))
 
 def pClefs : P (List RawClef) :=
-  list (do let t ← int; let st ← int; let sg ← str; let ln ← int; let oc ← opt int; pure (t, st, sg, ln, oc))
-
-def pMs : P (List (Int × Int)) := list (do let s ← int; let e ← int; pure (s, e))
+  list (do let t ← int; let st ← int; let sg ← str; let ln ← opt int; let oc ← opt int; pure (t, st, sg, ln, oc))
 
 def pMsN : P (List (Int × Int × Option Int)) :=
   list (do let s ← int; let e ← int; let n ← opt int; pure (s, e, n))
+
+def pPart : P PartD := do
+  let n ← nat
+  let sp ← pSpan
+  let qd ← list (do let t ← int; let q ← nat; pure (t, q))
+  let ts ← list (do let t ← int; let b ← nat; let bt ← nat; let mb ← nat; pure (⟨t, b, bt, mb⟩ : TimeMap.TSig))
+  let mus ← bool
+  let ms ← pMsN
+  pure { npoints := n, span := sp, qd := qd, ts := ts, musical := mus, ms := ms }
+
+def fmtORat : Option Rat → String
+  | some r => fmtRat r
+  | none => "nan"
 
 def nanTuple (n : Nat) : String := fmtTuple (List.replicate n "nan")
 
@@ -64,9 +77,6 @@ def orErr (o : Option String) : String := o.getD "err"
 
 def handle (ts : List String) : String :=
   match ts with
-  | "ts" :: rest =>
-    orErr <| (run (do let sp ← pSpan; let tss ← pTss; let xs ← list int; pure (sp, tss, xs)) rest).map
-      fun (sp, tss, xs) => fmtList fmtTS (vec (tsMap sp tss) xs)
   | "ks" :: rest =>
     orErr <| (run (do let sp ← pSpan; let kss ← pKss; let xs ← list int; pure (sp, kss, xs)) rest).map
       fun (sp, kss, xs) => fmtList fmtKS (vec (ksMap sp kss) xs)
@@ -75,21 +85,25 @@ def handle (ts : List String) : String :=
                       pure (sp, cs, os, xs)) rest).bind
       fun (sp, cs, os, xs) =>
         (xs.mapM fun x => clefMap sp cs os x).map fun rows => fmtList (fmtList fmtClef) rows
-  | "mm" :: rest =>
-    orErr <| (run (do let sp ← pSpan; let tss ← pTss; let ms ← pMs; let d ← opt rat; let xs ← list int
-                      pure (sp, tss, ms, d, xs)) rest).map
-      fun (sp, tss, ms, d, xs) => fmtList fmtMM (vec (measureMap sp tss ms d) xs)
-  | "mn" :: rest =>
-    orErr <| (run (do let sp ← pSpan; let tss ← pTss; let ms ← pMsN; let d ← opt rat; let xs ← list int
-                      pure (sp, tss, ms, d, xs)) rest).bind
-      fun (sp, tss, ms, d, xs) =>
-        (xs.mapM fun x => measureNumberMap sp tss ms d x).map fun rows => fmtList fmtOInt rows
-  | "mp" :: rest =>
-    orErr <| (run (do let sp ← pSpan; let tss ← pTss; let ms ← pMs; let d ← opt rat; let xs ← list int
-                      pure (sp, tss, ms, d, xs)) rest).bind
-      fun (sp, tss, ms, d, xs) =>
-        (xs.mapM fun x => metricalMap sp tss ms d x).map fun rows =>
+  | "tsE" :: rest =>
+    orErr <| (run (do let p ← pPart; let xs ← list int; pure (p, xs)) rest).map
+      fun (p, xs) => fmtList fmtTS (vec (tsMapE p.span p.ts) xs)
+  | "dpb" :: rest =>
+    orErr <| (run pPart rest).bind fun p =>
+      if raisesP p then none else some (fmtTuple [fmtORat (beatsPerBar p), fmtORat (divsPerBeat p)])
+  | "mmP" :: rest =>
+    orErr <| (run (do let p ← pPart; let xs ← list int; pure (p, xs)) rest).bind
+      fun (p, xs) => (xs.mapM fun x => measureMapP p x).map fun rows => fmtList fmtMM rows
+  | "mnP" :: rest =>
+    orErr <| (run (do let p ← pPart; let xs ← list int; pure (p, xs)) rest).bind
+      fun (p, xs) => (xs.mapM fun x => measureNumberMapP p x).map fun rows => fmtList fmtOInt rows
+  | "mpP" :: rest =>
+    orErr <| (run (do let p ← pPart; let xs ← list int; pure (p, xs)) rest).bind
+      fun (p, xs) =>
+        (xs.mapM fun x => metricalMapP p x).map fun rows =>
           fmtList (fun (p : Int × Option Int) => fmtTuple [fmtInt p.1, fmtOInt p.2]) rows
+  | "sorted" :: rest =>
+    orErr <| (run (list int) rest).map fun ts => fmtBool (sortedTimes ts)
   | _ => "bad-request"
 
 def main : IO Unit := mainLoop handle
